@@ -46,7 +46,7 @@ def run_impl(lines):
         if m in (20, 120, 220, 221, 222):
             layp.append(i)
             continue
-        groups["ir" if m == 1 else "grp" if m == 4 else "rt" if 10 <= m <= 19 else "prog"].append(i)
+        groups["ir" if m == 1 else "grp" if m in (4, 204) else "rt" if 10 <= m <= 19 else "prog"].append(i)
     if layp:
         res = layout_probe([lines[i] for i in layp])
         for j, i in enumerate(layp):
@@ -141,15 +141,25 @@ def enc_name(s):
     return " ".join(str(ord(c)) for c in s)
 
 
-def grp_cases(rng, tier):
+def grp_names(l):
+    """(number of mandatory traits, the identities of the traits of a group line: the alias where one is given)"""
+    hdr, rows = vlib.parse_case(l)
+    return hdr[1], ["".join(chr(c) for c in r).rsplit("=", 1)[-1] for r in rows]
+
+
+def grp_cases(rng, tier, mid=4):
     cases = []
     pool = ["Alpha", "Beta", "Gamma", "Delta", "Zed", "Ab", "Aa", "B", "Omega", "Mid", "Xy", "Xz", "aLower", "Zz", "A1", "A0"]
     maxopt = 4
     nrand = 40 if tier == "quick" else 600
+    # aliased instantiations of one generic trait (`Get<u8>=GetU8`): the alias is the trait's identity in the group
     fixed = [(["Peek"], ["OptA", "OptB", "OptC"]), (["Peek"], ["OptC", "OptA", "OptB"]), (["Zm", "Am"], ["Bo"]), (["M"], ["D", "C", "B", "A"]), (["M"], ["A"]),
-             (["Ab", "Aa"], ["B", "Ac", "A"])]
+             (["Ab", "Aa"], ["B", "Ac", "A"]),
+             (["Base"], ["Get<u8>=GetU8", "Get<u16>=GetU16", "Get<u32>=GetU32", "Named"]), (["Get<i8>=Zg", "Base"], ["Get<u8>=B", "Other", "Get<u16>=A"]),
+             (["M"], ["Conv<u8,u16>=Narrow", "Conv<u16,u8>=Wide"])]
     for mand, opt in fixed:
-        cases.append("4 %d | %s" % (len(mand), " ; ".join(enc_name(n) for n in mand + opt)))
+        cases.append("%d %d | %s" % (mid, len(mand), " ; ".join(enc_name(n) for n in mand + opt)))
+    gens = ["Get<u8>=", "Get<u16>=", "Get<u32>=", "Get<i64>=", "Map<u8,u8>=", "Map<u8,u16>="]
     for _ in range(nrand):
         names = list(pool)
         # shuffle with the run's RNG
@@ -159,8 +169,15 @@ def grp_cases(rng, tier):
         nm = rng.range(1, 3)
         no = rng.range(1, maxopt)
         sel = names[:nm + no]
-        cases.append("4 %d | %s" % (nm, " ; ".join(enc_name(n) for n in sel)))
-    return cases, {"group_definitions": len(cases), "max_optional": maxopt}
+        if rng.chance(1, 3):     # some of the traits are aliased instantiations of generic traits (two of them often of the same one)
+            # (each instantiation at most once per group: two aliases of the SAME instantiation would be two impls of one trait)
+            pool_g = list(gens)
+            for i in range(len(pool_g) - 1, 0, -1):
+                j = rng.below(i + 1)
+                pool_g[i], pool_g[j] = pool_g[j], pool_g[i]
+            sel = [(pool_g.pop() + n) if rng.chance(1, 2) else n for n in sel]
+        cases.append("%d %d | %s" % (mid, nm, " ; ".join(enc_name(n) for n in sel)))
+    return cases, {("group_definitions" if mid == 4 else "impl_group_tables"): len(cases), "max_optional": maxopt}
 
 
 # ------------------------------------------------------------------------------------------ behavioural
@@ -196,7 +213,8 @@ def shapes_cases(rng, tier):
 
 def life_cases(rng, tier, with_borrowed=True):
     cases = ["106 | 0 1 ; 1 0 ; 2 0 ; 2 0 ; 7 1 ; 4 0 ; 1 3 ; 7 3", "106 | 0 1 ; 5 0", "106 | 8 5 ; 6 0 ; 6 1 ; 7 0", "106 | 10 7 1 ; 11 0 ; 6 1 ; 12 1 ; 11 3",
-             "106 | 10 7 0 ; 11 0", "106 | 13 4 ; 14 5", "106 | 0 2 ; 2 0 ; 5 0 ; 1 1", "106 | 15 -77 ; 1 0 ; 7 0", "106 | 15 -77 ; 15 -77 ; 7 1"]
+             "106 | 10 7 0 ; 11 0", "106 | 13 4 ; 14 5", "106 | 0 2 ; 2 0 ; 5 0 ; 1 1", "106 | 15 -77 ; 1 0 ; 7 0", "106 | 15 -77 ; 15 -77 ; 7 1",
+             "106 | 10 7 1 ; 16 0", "106 | 10 7 0 ; 17 0 ; 1 1", "106 | 10 7 1 ; 11 0 ; 6 1 ; 16 1 ; 17 2", "106 | 10 7 1 ; 11 0 ; 12 1 ; 16 2"]
     if with_borrowed:
         cases.append("106 | 9 3 ; 3 0 ; 3 0 ; 3 0")
     n = 300 if tier == "quick" else 6000
@@ -221,7 +239,7 @@ def life_cases(rng, tier, with_borrowed=True):
                 ops.append([rng.choice([13, 14]), 50 + nid]); nid += 1
                 continue
             if r < 32:   # ill-targeted stream
-                ops.append([rng.choice([1, 2, 4, 5, 6, 7, 11, 12]), rng.range(0, len(kinds))])
+                ops.append([rng.choice([1, 2, 4, 5, 6, 7, 11, 12, 16, 17]), rng.range(0, len(kinds))])
                 continue
             h = rng.choice(live)
             k = kinds[h]
@@ -234,13 +252,13 @@ def life_cases(rng, tier, with_borrowed=True):
             elif k == "R":
                 c = rng.choice([3, 3, 7])
             elif k in ("G0", "G1"):
-                c = rng.choice([1, 11, 11, 7])
+                c = rng.choice([1, 11, 11, 7, 16, 17])
             else:
-                c = rng.choice([1, 6, 12, 7])
+                c = rng.choice([1, 6, 6, 12, 7, 16, 17])
             ops.append([c, h])
             if c == 2: kinds.append("H")
-            elif c == 4: kinds[h] = "D"; kinds.append("H")
-            elif c in (5, 7): kinds[h] = "D"
+            elif c in (4, 17): kinds[h] = "D"; kinds.append("H")
+            elif c in (5, 7, 16): kinds[h] = "D"
             elif c == 6: kinds.append(k)
             elif c == 11:
                 kinds[h] = "D"
